@@ -765,4 +765,36 @@ theorem tie_body_handleError (err closed : Bool) :
     handleErrorBody err closed = (if (!err || closed) then 0 else 1) ∧ handleErrorBodyReturns = ["", "<continues>"] :=
   ⟨rfl, rfl⟩
 
+/-- **`engine.bindRoute` / `appendAuthHandler`, decisions** (model `bindChain`, `tokenOk`): the native chain is built
+only when no `WithChain` chain is set; an Authorize handler is appended iff the group's jwt is enabled; the previous
+secret takes part iff it is non-empty (`tokenOk`: `b != ""`); `Authorize` gets the GROUP's `fr.jwt.secret` /
+`fr.jwt.prevSecret`, and the chain goes on through `verifier(chn)`. -/
+theorem tie_cond_bindRoute (chain : Option Nat) (jwt : Option (String × String)) (prev : String) (auth : Option String) (a : String) :
+    condBindRouteNative chain.isSome = chain.isNone ∧
+    ((bindChain chain jwt [] 0).any (fun l => match l with | .auth _ _ => true | _ => false) = condAuthEnabled jwt.isSome) ∧
+    (condAuthNoPrev prev = true → tokenOk (some (a, prev)) auth = tokenOk (some (a, "")) auth) ∧
+    (condAuthNoPrev prev = (prev == "")) ∧
+    argsOf engineAppendAuthCalls "handler.Authorize" =
+      [["fr.jwt.secret", "handler.WithUnauthorizedCallback(ng.unauthorizedCallback)"],
+       ["fr.jwt.secret", "handler.WithPrevSecret(fr.jwt.prevSecret)", "handler.WithUnauthorizedCallback(ng.unauthorizedCallback)"]] ∧
+    engineAppendAuthCalls.getLast? = some ("verifier", ["chn"]) := by
+  have hlen : (prev.length == 0) = (prev == "") := by
+    rw [← String.length_toList]
+    have : prev = String.ofList prev.toList := by simp
+    cases h : prev.toList with
+    | nil => rw [this, h]; rfl
+    | cons c cs =>
+      have hne : prev ≠ "" := by intro e; rw [e] at h; cases h
+      simp [hne]
+  refine ⟨by cases chain <;> rfl, ?_, ?_, hlen, rfl, rfl⟩
+  · unfold bindChain condAuthEnabled
+    cases jwt with
+    | none => simp
+    | some ab => simp
+  · intro h
+    unfold condAuthNoPrev at h
+    rw [hlen] at h
+    have : prev = "" := by simpa using h
+    rw [this]
+
 end GoZero.C09.Tie
